@@ -264,6 +264,35 @@ def duration_end_index(n: int, o0: int, g1: int, g2: int, g3: int, g4: int, k: i
     return _duration_kernel(onsets, k, m, d1, d2)
 
 
+def duration_with_delay(n: int, o0: int, g1: int, g2: int, k: int, d: int, dl: int, first: bool) -> bool:
+    """
+    pre: 1 <= n <= 3 and _cell("VP_ROWS", n)
+    pre: 0 <= o0 and 0 <= g1 and 0 <= g2
+    pre: 0 <= k < n
+    pre: 0 <= d and 0 <= dl
+    post: _
+    """
+    # a Delay-shifted Duration group arrives on its own row AT ITS SHIFTED TIME and still carries its Delay tag
+    # (before or after the Duration tag): the process starts at that row's onset and lasts `d`, the Delay tag must
+    # not be counted a second time
+    n, k = _conc(n, 1, 3), _conc(k, 0, 2)
+    onsets = [o0, o0 + g1, o0 + g1 + g2][:n]
+    em = _new_manager(onsets, n)
+    dur = _Tag("Duration", value=d)
+    delay = _Tag("Delay", value=dl)
+    inner = HedGroup(contents=[_Tag("x")])
+    group = _TGroup("D1", [delay, dur, inner] if first else [dur, delay, inner])
+    row = _Row([(dur, group)], True)
+    em._extract_duration_events(row, k)
+    evs = em.event_list[k]
+    if len(evs) != 1:
+        return False
+    ev = evs[0]
+    if ev.start_index != k or ev.start_time != onsets[k] or ev.end_time != onsets[k] + d:
+        return False
+    return ev.end_index == ref.first_at_or_after(onsets, onsets[k] + d)
+
+
 # ------------------------------------------------------------------------------------------------ C
 def _names_ok(*names):
     for s in names:
@@ -610,6 +639,14 @@ HARNESSES = [
         stubs=[_S_NUM, _S_TAGS, "EventManager made with __new__; the Duration group's inner group is a real HedGroup"],
         outside="duration text -> default units (C11), Delay shifting and sorting (pandas), NaN onsets, "
                 "non-integer rounding"),
+    R.H("duration_with_delay", [_EM + "_extract_duration_events", _TE + "__init__", _TE + "_split_group", _TE + "set_end"],
+        quick=R.tier(cells=R.int_cells("VP_ROWS", 1, 3), timeout=400,
+                     bound="1-3 time points with any non-decreasing integer onsets, one Duration group that also holds a "
+                           "Delay tag (before or after the Duration tag) with any durations/delays >= 0, on any row"),
+        what="a Delay-shifted Duration group (already placed at its shifted time) starts at its row's onset and ends "
+             "at the first time point at or after onset + duration: the Delay tag inside it is not applied again",
+        oracle="models/context_ref.py first_at_or_after", stubs=[_S_NUM, _S_TAGS],
+        outside="the shifting itself (split_delay_tags: pandas)"),
     R.H("onset_offset_scan", [_EM + "_extract_temporal_events", _TE + "__init__", _TE + "_split_group",
                               _TE + "set_end"],
         quick=R.tier(cells=_scan_cells(3, False), env={"VP_N": 3, "VP_M": 3}, timeout=400,
